@@ -17,6 +17,7 @@ pub fn is_nonlocation_debug(opcode: spirv::Op) -> bool {
             | spirv::Op::Name
             | spirv::Op::MemberName
             | spirv::Op::String
+            | spirv::Op::ModuleProcessed
     )
 }
 
@@ -36,6 +37,7 @@ pub fn is_annotation(opcode: spirv::Op) -> bool {
             | spirv::Op::GroupMemberDecorate
             | spirv::Op::DecorateString
             | spirv::Op::MemberDecorateStringGOOGLE
+            | spirv::Op::DecorateId
     )
 }
 
@@ -66,6 +68,31 @@ pub fn is_type(opcode: spirv::Op) -> bool {
             | spirv::Op::TypeAccelerationStructureKHR
             | spirv::Op::TypeRayQueryKHR
             | spirv::Op::TypeForwardPointer
+            | spirv::Op::TypePipeStorage
+            | spirv::Op::TypeNamedBarrier
+            | spirv::Op::TypeUntypedPointerKHR
+            | spirv::Op::TypeCooperativeMatrixKHR
+            | spirv::Op::TypeNodePayloadArrayAMDX
+            | spirv::Op::TypeHitObjectNV
+            | spirv::Op::TypeCooperativeVectorNV
+            | spirv::Op::TypeCooperativeMatrixNV
+            | spirv::Op::TypeTensorLayoutNV
+            | spirv::Op::TypeTensorViewNV
+            | spirv::Op::TypeVmeImageINTEL
+            | spirv::Op::TypeAvcImePayloadINTEL
+            | spirv::Op::TypeAvcRefPayloadINTEL
+            | spirv::Op::TypeAvcSicPayloadINTEL
+            | spirv::Op::TypeAvcMcePayloadINTEL
+            | spirv::Op::TypeAvcMceResultINTEL
+            | spirv::Op::TypeAvcImeResultINTEL
+            | spirv::Op::TypeAvcImeResultSingleReferenceStreamoutINTEL
+            | spirv::Op::TypeAvcImeResultDualReferenceStreamoutINTEL
+            | spirv::Op::TypeAvcImeSingleReferenceStreaminINTEL
+            | spirv::Op::TypeAvcImeDualReferenceStreaminINTEL
+            | spirv::Op::TypeAvcRefResultINTEL
+            | spirv::Op::TypeAvcSicResultINTEL
+            | spirv::Op::TypeBufferSurfaceINTEL
+            | spirv::Op::TypeStructContinuedINTEL
     )
 }
 
@@ -86,6 +113,8 @@ pub fn is_constant(opcode: spirv::Op) -> bool {
             | spirv::Op::SpecConstantOp
             | spirv::Op::ConstantCompositeContinuedINTEL
             | spirv::Op::SpecConstantCompositeContinuedINTEL
+            | spirv::Op::ConstantCompositeReplicateEXT
+            | spirv::Op::SpecConstantCompositeReplicateEXT
     )
 }
 
